@@ -6,10 +6,12 @@ import FxVerif.Gen.C17
 body; `+exit` marks a `break` / non-constant `return` out of the loop), every floating-point operation (marked
 `in-maprange` when it is executed inside a range over a map; accumulations carry the shape of what is added),
 `time.Now` (also every call of a dependency function whose body reads the clock: wrappers such as cometbft `tmtime.Now`),
-`go`, `select`, random-number call and process-specific value (`procValue`: `debug.Stack`, `runtime.Stack/Caller/
-NumGoroutine/…`, `os.Getpid/Hostname/Getenv/…`, reflect / unsafe pointer values, `%p` and printed channels / functions /
-addresses) in the non-generated, non-CLI code of `x/…`, `app`, `ante`, `types`,
-`contract`.  Each site is assigned a *class*; each class has an order- and platform-independence theorem in
+`go`, `select`, random-number call (`rand`: also dependency wrappers of `math/rand` / `crypto/rand`), process-specific value
+(`procValue`: `debug.Stack`, `runtime.Stack/Caller/NumGoroutine/…`, `os.Getpid`), environment read (`envRead`:
+`os.Getenv/LookupEnv/Environ/ExpandEnv/Hostname/Getwd/UserHomeDir/…` and dependency wrappers of them, followed to a fixpoint
+through the parsed dependency packages) and printed address (`pointerFormat`: `%p`, a formatted argument whose static type
+reaches a pointer below the top level / a channel / a function without a `String`/`Error`/`Format` method, reflect /
+unsafe pointer values) in the non-generated, non-CLI code of `x/…`, `app`, `ante`, `types`, `contract`.  Each site is assigned a *class*; each class has an order- and platform-independence theorem in
 `Props/C17.lean` about the executable model of that computation given here.  A new site in the source is not in
 `reviewed`, so `inventory_covered` stops checking.
 -/
@@ -68,8 +70,8 @@ def reviewed : List (String × String × String × String × Class) := [
   -- clock wrappers (dependency functions whose body reads the clock) and process-specific values
   ("x/gov", "EndBlocker", "timeNow", "github.com/cosmos/cosmos-sdk/telemetry.Now (calls time.Now)", .telemetry),
   ("app", "App.prepForZeroHeightGenesis", "timeNow", "github.com/cosmos/cosmos-sdk/x/crisis/keeper.Keeper.AssertInvariants (calls time.Now)", .exportOnly),
-  ("types", "init", "procValue", "os.ExpandEnv", .nodeConfig),
-  ("types", "init", "procValue", "os.UserHomeDir", .nodeConfig)
+  ("types", "init", "envRead", "os.ExpandEnv", .nodeConfig),
+  ("types", "init", "envRead", "os.UserHomeDir", .nodeConfig)
 ]
 
 def classify (s : Site) : Option Class :=
@@ -100,11 +102,15 @@ def classConsistent (s : Site) (c : Class) : Bool :=
     | .telemetry => s.expr == "github.com/cosmos/cosmos-sdk/telemetry.Now (calls time.Now)" && s.func == "EndBlocker"
     | .exportOnly => s.pkg == "app" && s.func == "App.prepForZeroHeightGenesis"
     | _ => false   -- a direct time.Now / Since / Until, or any other wrapper, has no admissible class
-  else if s.kind == "procValue" then
+  else if s.kind == "envRead" then
     match c with
+    -- an environment read is admissible only at package initialisation of `types` (the default node home: a CLI / config
+    -- default that no handler reads — `env_read_at_init_irrelevant`); the same holds for a dependency wrapper of one
     | .nodeConfig => s.pkg == "types" && s.func == "init"
-    | _ => false   -- stack traces, goroutine / cpu counts, pids, printed addresses: no admissible class
-  else false   -- go / select / rand have no admissible class: any occurrence breaks the obligation
+    | _ => false
+  else false   -- go / select / rand / procValue (stack traces, goroutine and cpu counts, pids) / pointerFormat (%p, printed
+               -- addresses, %v of a value containing a pointer, reflect / unsafe pointer values) have no admissible class:
+               -- any occurrence breaks the obligation
 
 def covered (s : Site) : Bool :=
   match classify s with
